@@ -2674,6 +2674,10 @@ static Node *new_sub(Node *lhs, Node *rhs, Token *tok) {
   if (lhs->ty->base && rhs->ty->base) {
     Node *node = new_binary(ND_SUB, lhs, rhs, tok);
     node->ty = ty_long;
+
+    // The element size of a pointer to a VLA is only known at run time.
+    if (lhs->ty->base->kind == TY_VLA)
+      return new_binary(ND_DIV, node, new_var_node(lhs->ty->base->vla_size, tok), tok);
     return new_binary(ND_DIV, node, new_num(lhs->ty->base->size, tok), tok);
   }
 
